@@ -210,6 +210,14 @@ bool Env::parallel(const ParallelOpts& o) {
         if (WIFEXITED(st) && WEXITSTATUS(st) == 0) { pids[w] = -1; live--; continue; }
         uint64_t idx = sh->slots[w].index;
         std::string what = WIFSIGNALED(st) ? "worker killed by signal " + std::to_string(WTERMSIG(st)) : "worker exited with status " + std::to_string(WEXITSTATUS(st));
+        if (WIFSIGNALED(st) && WTERMSIG(st) == SIGKILL) {   // not sent by this process (hangs are killed and reaped in the branch below) and never raised by the code under
+          // test (sanitizers abort, faults are SIGSEGV/SIGBUS): the kernel's out-of-memory killer or an operator.  An infrastructure event, not an observation: run the block again.
+          counters["workers_killed_from_outside_and_restarted"]++;
+          if (counters["workers_killed_from_outside_and_restarted"] > 40) { std::cerr << "vcheck: more than 40 workers were killed by SIGKILL from outside (out of memory?): giving up\n"; exit(2); }
+          static std::map<std::string, int> extKills;   // the same case killed twice: its own memory use is the likelier cause; fall through and treat it as a crash of that case
+          if (!(sh->slots[w].running && ++extKills[o.stage + "#" + std::to_string(idx)] >= 2)) { sh->slots[w].running = 0; spawn(w); continue; }
+          what += " (twice while running this case: memory exhaustion?)";
+        }
         if (!sh->slots[w].running) { std::cerr << "vcheck: worker " << w << " died outside a case: " << what << "\n" << tailOfFile(dir + "/w" + std::to_string(w) + ".err", 2000); exit(2); }
         recordBad(w, idx, "crash", what);
         sh->slots[w].running = 0;
